@@ -5,6 +5,7 @@ import (
 	"encoding/json"
 	"fmt"
 	"regexp"
+	"runtime"
 	"runtime/debug"
 	"strings"
 	"sync"
@@ -114,6 +115,7 @@ type C14Op struct {
 	Kind string `json:"kind"` // marshal unmarshal marshal_json unmarshal_json reuse_buf
 	Mask int    `json:"mask"`
 	Buf  int    `json:"buf,omitempty"` // shared caller buffer (unmarshal through a reused buffer)
+	N    int    `json:"n,omitempty"`   // churn: number of short-lived masks
 }
 
 type C14Caller struct {
@@ -180,7 +182,13 @@ func c14GenPath(r *simrt.Rand, nonce string, u int) string {
 			case 1:
 				fmt.Fprintf(&sb, "{\"a\",\"%s\"}", nonce)
 			default:
-				fmt.Fprintf(&sb, "{\"%s\"}", []string{"a", "b", "k", nonce}[r.Intn(4)])
+				if r.Chance(1, 6) {
+					// keys as the path grammar writes them (Go string syntax): an escaped backslash at the
+					// end, an escaped quote, a blank, a non-ASCII letter, a control character
+					fmt.Fprintf(&sb, "{\"%s\"}", []string{`a\\`, `q\"x`, "x y", "é", `t\x01`}[r.Intn(5)])
+				} else {
+					fmt.Fprintf(&sb, "{\"%s\"}", []string{"a", "b", "k", nonce}[r.Intn(4)])
+				}
 			}
 			n = n.elem
 		case "intmap":
@@ -359,6 +367,10 @@ func (c14Driver) Gen(seed uint64, tier string) *simrt.Spec {
 		}
 		w.Masks = append(w.Masks, m)
 	}
+	if r.Chance(1, 40) {
+		// the empty list of paths is a list of paths too
+		w.Masks = append(w.Masks, C14Mask{Black: r.Chance(1, 3), U: r.Intn(2)})
+	}
 	// twins: same paths except for one digit, so that the two documents have the same length but
 	// answer differently (a caller reusing its buffer overwrites one with the other in place)
 	if r.Chance(1, 2) {
@@ -388,6 +400,10 @@ func (c14Driver) Gen(seed uint64, tier string) *simrt.Spec {
 		no := 1 + r.Intn(6)
 		for k := 0; k < no; k++ {
 			op := C14Op{Kind: []string{"marshal", "unmarshal", "marshal_json", "unmarshal_json", "reuse_buf", "reuse_buf", "fill_buf", "unmarshal_buf", "unmarshal_buf"}[r.Intn(9)], Mask: r.Intn(nm), Buf: r.Intn(2)}
+			if r.Chance(1, 16) {
+				// short-lived masks with memory reclaimed in between (a collection is an event the program does not control)
+				op = C14Op{Kind: "churn", Mask: r.Intn(nm), N: 8 + r.Intn(40)}
+			}
 			cl.Ops = append(cl.Ops, op)
 		}
 		w.Callers = append(w.Callers, cl)
@@ -496,6 +512,7 @@ func (c14Driver) Run(spec *simrt.Spec, agg *Agg, keep bool) *Outcome {
 		f()
 	}
 	nBuilt, nErr, nCorruptErr, nCorruptOK, nProbes := 0, 0, 0, 0, 0
+	nChurn, nGC := 0, 0
 	res := w.Run(func() {
 		type ref struct {
 			fm   *fieldmask.FieldMask
@@ -596,7 +613,11 @@ func (c14Driver) Run(spec *simrt.Spec, agg *Agg, keep bool) *Outcome {
 				// (ii) round trip
 				back := new(fieldmask.FieldMask)
 				if err := back.UnmarshalJSON(j); err != nil {
-					fail("roundtrip-error", "roundtrip-error", "UnmarshalJSON of the library's own output fails: %v (%s)", err, clip(string(j)))
+					cls := "roundtrip-error"
+					if len(m.Paths) == 0 {
+						cls = "roundtrip-error:no-paths" // a class of its own, so that minimising another failure cannot end here
+					}
+					fail(cls, cls, "UnmarshalJSON of the library's own output fails: %v (%s); paths %q black=%v", err, clip(string(j)), m.Paths, m.Black)
 					return
 				}
 				if a := c14Ans(back); a != refs[i].ans {
@@ -678,6 +699,31 @@ func (c14Driver) Run(spec *simrt.Spec, agg *Agg, keep bool) *Outcome {
 								fail("cache-unmarshal-error", "cache-unmarshal-error", "%s: %v", who, err)
 							} else if a := c14Ans(fm); a != want.ans {
 								fail("cache-wrong-mask", "cache-wrong-mask:reused-buffer", "%s decoded the document of mask %d from a buffer the caller had reused, and got a mask that answers differently from the mask of that document: %s", who, k, firstDiff(want.ans, a))
+							}
+						case "churn":
+							// masks that live for one request: built, serialised through the cache, dropped; memory is
+							// reclaimed now and then; what Marshal returns for a mask is that mask's own text
+							for k := 0; k < op.N && class == ""; k++ {
+								idx := (op.Mask + k*7) % len(refs)
+								if refs[idx] == nil {
+									continue
+								}
+								m := work.Masks[idx]
+								fm, err := fieldmask.Options{BlackListMode: m.Black}.NewFieldMask(c14DescriptorOf(m.U), m.Paths...)
+								if err != nil {
+									continue
+								}
+								j, err := fieldmask.Marshal(fm)
+								if err != nil || !bytes.Equal(j, refs[idx].json) {
+									fail("cache-wrong-json", "cache-wrong-json:short-lived-mask", "%s: Marshal of a fresh mask built from %q returned %s, its own text is %s (err=%v)", who, m.Paths, clip(string(j)), clip(string(refs[idx].json)), err)
+								}
+								nChurn++
+								fm = nil
+								if k%6 == 5 {
+									simrt.Log("gc", "")
+									runtime.GC()
+									nGC++
+								}
 							}
 						case "reuse_buf":
 							// a caller-owned buffer reused for successive documents
@@ -815,6 +861,8 @@ func (c14Driver) Run(spec *simrt.Spec, agg *Agg, keep bool) *Outcome {
 	o.Class, o.Sig, o.Msg = class, sig, msg
 	agg.Count("masks.built", nBuilt)
 	agg.Count("probe.path-membership-queries", nProbes)
+	agg.Count("churn.short-lived-masks", nChurn)
+	agg.Count("fault.gc-cycle-between-requests", nGC)
 	agg.Count("masks.rejected-paths", nErr)
 	agg.Count("fault.corrupt.rejected", nCorruptErr)
 	agg.Count("fault.corrupt.accepted", nCorruptOK)
